@@ -414,25 +414,40 @@ fn still_fails<P: Property>(p: &P, ops: &[P::Op], want_oracle: bool, want_crash:
     }
 }
 
-/// greedy one-at-a-time removal until no single removal keeps the failure
+/// removal of chunks of halving size (whole halves first, single operations last) until no single
+/// removal keeps the failure, within a budget of executions
 pub fn shrink<P: Property>(p: &P, ops: Vec<P::Op>, want_oracle: bool, want_crash: bool) -> Vec<P::Op> {
     let mut cur = ops;
     let mut budget = 400usize;
+    // … and of time: a case of a thousand operations takes seconds per execution
+    let started = std::time::Instant::now();
+    let limit = std::time::Duration::from_secs(std::env::var("VERIF_SHRINK_SECS").ok().and_then(|s| s.parse().ok()).unwrap_or(40));
+    let mut chunk = (cur.len() / 2).max(1);
     loop {
         let mut changed = false;
         let mut i = 0;
         while i < cur.len() && budget > 0 {
+            if started.elapsed() > limit {
+                budget = 0;
+                break;
+            }
+            let end = (i + chunk).min(cur.len());
             let mut cand = cur.clone();
-            cand.remove(i);
+            cand.drain(i..end);
             budget -= 1;
             if still_fails(p, &cand, want_oracle, want_crash) {
                 cur = cand;
                 changed = true;
             } else {
-                i += 1;
+                i = end;
             }
         }
-        if !changed || budget == 0 {
+        if budget == 0 {
+            break;
+        }
+        if chunk > 1 {
+            chunk = (chunk / 2).max(1);
+        } else if !changed {
             break;
         }
     }
